@@ -222,17 +222,19 @@ Print Assumptions C11_filter_bit_refuted.
 
 (* ================= guards ================= *)
 
-(* outside "key non-empty" the table is unreadable *)
-Theorem C11_empty_key_refuted :
+(* the empty key: before /repo f30cabd such a table was unreadable (block.Iterator.Valid() demanded
+   len(key) > 0); now it reads back like any other (the general theorems above keep the guard
+   "key non-empty" of wf_sentry: the byte-level round trip is proved for non-empty keys only) *)
+Theorem C11_empty_key_ok :
   let es := [mkS [] 5 (Some [1]); mkS [97] 7 (Some [1;2])] in
   let tb := write (fun _ _ => true) true es in
   ascending es = true /\
-  collect tb 3 (ti_seek_first tb) = [] /\
-  ti_valid tb (fst (ti_seek tb [97])) = false /\
-  ti_valid tb (ti_seek_last tb) = false /\
-  t_get tb [] = GNotFound /\ t_get tb [97] = GNotFound.
-Proof. exact SSTableProofs.C11_empty_key_refuted. Qed.
-Print Assumptions C11_empty_key_refuted.
+  collect tb 3 (ti_seek_first tb) = es /\
+  ti_cur tb (fst (ti_seek tb [97])) = Some (mkS [97] 7 (Some [1;2])) /\
+  ti_cur tb (ti_seek_last tb) = Some (mkS [97] 7 (Some [1;2])) /\
+  t_get tb [] = GVal [1] /\ t_get tb [97] = gres_of (mkS [97] 7 (Some [1;2])).
+Proof. exact SSTableProofs.C11_empty_key_ok. Qed.
+Print Assumptions C11_empty_key_ok.
 
 (* outside "key <= 65535 bytes" (D22) the block no longer decodes to what was written *)
 Theorem C11_long_key_refuted :
